@@ -7,7 +7,8 @@ those results for ALL parameter values:
       abstractions  spec/*/MC_*_apa.tla :   Init => Ind   (--init=Init --inv=Ind --length=0)
                                             Ind /\\ Next => Ind' and Ind => Concl   (--init=Ind --inv=Ind,Concl --length=1)
   TLAPS (`tlapm`, back ends Z3 / Zenon / Isabelle) proves the index algebra of C12 in its direct form
-      (spec/decode/LayoutIdx_proofs.tla), where Apalache/Z3 alone diverges (x % (B*q) with symbolic B, q);
+      (spec/decode/LayoutIdx_proofs.tla), where Apalache/Z3 alone diverges (x % (B*q) with symbolic B, q), and the closed form
+      of the EMA recurrence of C20 by induction (spec/train/EmaClosed_proofs.tla);
   TLC ties every abstraction to the module it abstracts, on the bounded scope (spec/*/MC_*_eq.tla): operator equivalence
       (Layout) or step-by-step refinement under a mapping, for every watched index (Loader, TrainingRun, Stats).
 
@@ -16,15 +17,17 @@ those results for ALL parameter values:
   C17       data/Loader.tla      n, batch size b, evaluation batch size e       apalache (MC_Loader_apa)
   C17/C20   train/TrainingRun    epochs, warm-up length, NTrain, NEval, policy  apalache (MC_TrainingRun_apa)
   C20       train/Stats.tla (U)  warm-up length NEp, number of calls            apalache (MC_Stats_apa)
-  NOT lifted: EmaExact / RetExact / Welford of Stats.tla (closed forms with a sum and a power of symbolic length over exact
-  rationals: no SMT theory for Apalache, and tlapm can neither load Rat.tla / Stats.tla (RECURSIVE) nor reason about reals).
+  C20       train/Stats.tla (E)  number of calls, beta = p/d, batch means       tlapm (EmaClosed_proofs) + tlc link (MC_EmaClosed_eq)
+  NOT lifted: RetExact (convex combination of two EMAs; definitional once EmaExact holds) and the Welford machine W of Stats.tla
+  (exact rationals with sums of symbolic length: no SMT theory for Apalache; tlapm can neither load Rat.tla / Stats.tla
+  (RECURSIVE is rejected) nor reason about rationals -- the EMA proof works on an integer-scaled restatement).
 
 `run_all(tier)` -> list of {"module", "tool", "claim", "ok", "wall_s", "detail", "id"}:  ok True = proved / no error,
 False = counterexample / failed proof obligation (detail says which), None = timeout or tool failure.  Never raises.  Everything
 (copies of the modules, tool output, JVM / SANY / Isabelle temporaries) goes to the per-run scratch directory `harness.tlc.OUT`;
 nothing is written to /tmp or to the checkout.  At most 4 tool processes at a time, one JVM thread each.
 
-`mutants(tier)` shows non-vacuity: single-site mutations of the restated operators / abstract machines (e.g. owner = r div B)
+`mutants()` shows non-vacuity: single-site mutations of the restated operators / abstract machines (e.g. owner = r div B)
 make the tools report counterexamples.   Standalone:  /venv/bin/python -m harness.props.unbounded quick|thorough|mutants
 """
 import concurrent.futures
@@ -314,8 +317,8 @@ def _run_jobs(jobs, tier, tag="", mutate=None):
 
 
 def run_all(tier="quick"):
-    """quick: the Apalache inductive checks and the TLC equivalence / refinement checks on the small scope (~30-50 s wall);
-    thorough: additionally the TLAPS proofs and the TLC checks on the scopes the property checks use (~2 min)."""
+    """quick: the Apalache inductive checks and the TLC equivalence / refinement checks on the small scope (20-30 s wall);
+    thorough: additionally the two TLAPS proofs and the TLC checks on the scopes the property checks use (1-2 min)."""
     try:
         return _run_jobs(_select("thorough" if tier == "thorough" else "quick"), "thorough" if tier == "thorough" else "quick")
     except Exception as ex:
@@ -423,6 +426,23 @@ def mutants(with_tlaps=True, only=None):
                      "not_caught": [] if r["ok"] is False else [job["id"]], "tool_failures": [] if r["ok"] is not None else [r["detail"]],
                      "wall_s": round(time.time() - t0, 1), "sample": r["detail"][:300]})
     return rows
+
+
+def for_property(pid, tier):
+    """the unbounded checks that belong to one property (job ids start with the property id); never raises, never a verdict:
+    a refuted check is printed as MODEL-DRIFT.  Returns the list of result rows (stored in the property's evidence)."""
+    t = "thorough" if tier == "thorough" else "quick"
+    try:
+        res = _run_jobs([j for j in _select(t) if j["id"].startswith(pid + ".")], t)
+    except Exception as ex:
+        res = [{"id": pid + ".unbounded", "module": "-", "tool": "-", "claim": "-", "ok": None, "wall_s": 0.0,
+                "detail": "harness error: %r" % (ex,)}]
+    for r in res:
+        if r["ok"] is False:
+            print("MODEL-DRIFT unbounded %s (%s %s): %s" % (r["id"], r["tool"], r["module"], r["detail"]))
+        elif r["ok"] is None:
+            print("NOTE unbounded %s (%s %s) inconclusive: %s" % (r["id"], r["tool"], r["module"], r["detail"]))
+    return res
 
 
 def violations(tier, seed=0):
